@@ -507,8 +507,8 @@ where
 // (End), or fails (Eof). Nothing else is ever skipped, nothing is dropped.
 // ---------------------------------------------------------------------------------------------
 use core::ops::Range;
-/// whether the tag belongs to the fields of the struct (assumed: `not_in` decodes the local name and compares it with the
-/// field names -- a FUNCTION of its arguments; `fields.iter().all(..)` is outside the Verus subset)
+/// whether the tag belongs to the fields of the struct: here an uninterpreted FUNCTION of the arguments; the real `not_in` is verified
+/// in unit dekey against `not_in_spec` (the decoded local name differs from every field name)
 pub uninterp spec fn spec_not_in(fields: &'static [&'static str], start: Seq<u8>, d: Decoder) -> Result<bool, DeError>;
 #[verifier::external_body]
 pub fn not_in(fields: &'static [&'static str], start: &BytesStart, decoder: Decoder) -> (r: Result<bool, DeError>)
